@@ -724,6 +724,9 @@ def c19(ctx):
         elif x < 0.6 and produced > 1 and not nobody:
             # the application produces more than it declared: the surplus is cut, and must not be counted
             hdrs.append(("Content-Length", str(rng.choice([0, 1, produced // 2, produced - 1]))))
+        elif x < 0.7 and prod in ("file", "filenofd") and produced > 0 and not nobody:
+            # the file holds fewer bytes than the application announced (it shrank after the stat): what was sent counts
+            hdrs.append(("Content-Length", str(produced + rng.choice([1, 200, 9000]))))
         spec = drv.AppSpec(STATUS_TEXT[status], hdrs, prod, chunk_bytes(sizes), file_offset=off)
         add(rng.choice(kinds), rng.choice([DEFAULT_FMT] + ["%%(%s)s" % a for a in ATOMS]), request_bytes(rq), spec, "completed",
             "prod=%s" % prod)
